@@ -430,6 +430,16 @@ func (x *Exec) specUF(fn *ssa.Function) *specDef {
 	}
 	c := x.C
 	name := "spec$" + fn.Name()
+	if recv := fn.Signature.Recv(); recv != nil {
+		// methods of different types may share a name (FeatureID.IsValid, AreaID.IsValid)
+		rt := recv.Type()
+		if pt, ok := rt.(*types.Pointer); ok {
+			rt = pt.Elem()
+		}
+		if nt, ok := rt.(*types.Named); ok {
+			name = "spec$" + nt.Obj().Name() + "." + fn.Name()
+		}
+	}
 	resT := fn.Signature.Results().At(0).Type()
 	rl := LayoutOf(resT)
 	if fn.Signature.Results().Len() != 1 || len(rl.Leaves) != 1 {
